@@ -246,8 +246,10 @@ for name in (['line2', 'ring3'] if a.tier == 'quick' else ['line2', 'line3', 'ri
                             prob.append(f'{n.uid}/{band}: incomplete band amplifier')
                         elif amp.params.type_variety not in eq['Edfa'][n.params.type_variety].multi_band:
                             prob.append(f'{n.uid}/{band}: {amp.params.type_variety} is not a member of {n.params.type_variety}')
-                        elif not (amp.params.f_min <= min(b['f_min'] for b in CL if b['f_min'] >= amp.params.f_min - 1e9 or True) ):
-                            pass
+                    covered = [[b for b in CL if amp.params.f_min <= b['f_min'] and amp.params.f_max >= b['f_max']] for amp in n.amplifiers.values()]
+                    if any(len(c) != 1 for c in covered) or len({c[0]['f_min'] for c in covered if c}) != len(CL):
+                        prob.append(f'{n.uid}: band amplifiers {[(a.params.type_variety, a.params.f_min, a.params.f_max) for a in n.amplifiers.values()]} '
+                                    f'do not cover one design band each')
                 if isinstance(n, Fiber):
                     nxt = next(net.successors(n))
                     if isinstance(nxt, (Fiber, Roadm)):
